@@ -579,6 +579,7 @@ type mwStressRes struct {
 	Fired    int    `json:"fired"`
 	Hung     bool   `json:"hung"`
 	Short    int    `json:"short"` // Writes that returned a length other than the buffer's
+	Panics   int    `json:"panics"`
 }
 
 func runMwStress(c mwStressCase) (res mwStressRes) {
@@ -597,7 +598,23 @@ func runMwStress(c mwStressCase) (res mwStressRes) {
 				if rng.Intn(4) == 0 {
 					n = c.MaxSize
 				}
-				k, err := conn.Write(make([]byte, n))
+				var k int
+				var err error
+				panicked := false
+				func() {
+					defer func() {
+						if r := recover(); r != nil {
+							panicked = true
+						}
+					}()
+					k, err = conn.Write(make([]byte, n))
+				}()
+				if panicked {
+					mu.Lock()
+					res.Panics++
+					mu.Unlock()
+					return
+				}
 				mu.Lock()
 				if err != nil {
 					res.Refused++
